@@ -24,6 +24,9 @@ theorem verdict :
 #print axioms reregistration_ignored_witness
 #print axioms refutes_reregistration
 #print axioms torn_save_witness
+#print axioms acknowledged_registration_lost_witness
+#print axioms refutes_ack_lost
+#print axioms Hv.Settings.acknowledged_is_durable
 #print axioms refutes_torn_save
 #print axioms Hv.Settings.registry_follows_history
 #print axioms Hv.Settings.entryFor_register
